@@ -18,8 +18,9 @@ Fixpoint unify (f : nat) (s ext : smap) (u v : term) : ures :=
   match f with
   | O => UOOF
   | S f' =>
-      let uw := wk s u in
-      let vw := wk s v in
+      match wkc s u, wkc s v with
+      | None, _ | _, None => UOOF
+      | Some uw, Some vw =>
       match uw, vw with
       | TVar a _, TVar b _ => if Nat.eqb a b then UOk s ext else bindv f' s ext a vw
       | TVar a _, _ => bindv f' s ext a vw
@@ -34,6 +35,7 @@ Fixpoint unify (f : nat) (s ext : smap) (u v : term) : ures :=
       | TComp g1 c1, TComp g2 c2 =>
           if Nat.eqb g1 g2 then unify_list f' s ext c1 c2 else UFail
       | _, _ => UFail
+      end
       end
   end
 with unify_list (f : nat) (s ext : smap) (us vs : terms) : ures :=
